@@ -18,7 +18,8 @@ def main():
         if only and n not in only:
             continue
         r = subprocess.run(["python3", os.path.join(V, "harness", "seeded.py"), n], capture_output=True, text=True, cwd=V)
-        print(n, "detected" if r.returncode == 0 else "MISSED" if r.returncode == 1 else "ERROR", flush=True)
+        print(n, "detected" if r.returncode == 0 else "MISSED" if r.returncode == 1 else
+              "NOT-APPLICABLE (superseded by a later fix; stored result kept)" if "patch does not apply" in r.stdout else "ERROR", flush=True)
     for n in names:
         p = os.path.join(V, "seeded", n, "result_quick.json")
         meta = json.load(open(os.path.join(V, "seeded", n, "meta.json")))
